@@ -42,7 +42,7 @@ EXTENDS ServiceE2EProps, Json
 
 CONSTANTS DesignedIdx, UniIdx,     \* sequences of naturals
           NB,                      \* chain length of the seeded universes
-          MaxLoss, Order, AllowKnown, AllowFork, Emit, EMod, EPhase
+          MaxLoss, MaxLossTotal, Order, AllowKnown, AllowFork, Emit, EMod, EPhase
 
 VARIABLES ui, blk, canon, forked, ks, nd, net, lastp, cuts, dropped, obs, hist
 vars == <<ui, blk, canon, forked, ks, nd, net, lastp, cuts, dropped, obs, hist>>
@@ -68,7 +68,9 @@ NoFork == [at |-> 0, b |-> NoB]
      the keyper that processes every block never triggers identity 2, the lagging ones do
    5 failed DKG of the other set; log in the registration block itself (must not fire), two later
      logs (first one wins)
-   6 everything early: both identities and the trigger in block 1, log in block 2 *)
+   6 everything early: both identities and the trigger in block 1, log in block 2
+   7 small: all three keypers send the same time list in block 2 (losses possible), keyper 2 syncs
+     the trigger's registration and log in one range *)
 Designed == <<
   [chain |-> <<B({"i1"}, 0, <<3, 0>>), B({"r1"}, 4, NoTs), B({"l1"}, 0, NoTs), B({"i2"}, 0, <<0, 8>>), NoB>>,
    fork |-> [at |-> 3, b |-> B({"o"}, 0, NoTs)],
@@ -93,7 +95,11 @@ Designed == <<
   [chain |-> <<B({"i1", "i2", "r1"}, 3, <<2, 3>>), B({"l1"}, 0, NoTs), NoB>>,
    fork |-> [at |-> 2, b |-> B({"o"}, 0, NoTs)],
    idset |-> <<1, 1>>, trset |-> <<1>>, kind |-> <<"ok", "foreign">>, act |-> <<1, 2>>,
-   sched |-> <<{1, 2, 3}, {2, 3}, {1, 3}>>] >>
+   sched |-> <<{1, 2, 3}, {2, 3}, {1, 3}>>],
+  [chain |-> <<B({"i1", "r1"}, 3, <<2, 0>>), B({"l1"}, 0, NoTs), NoB>>,
+   fork |-> NoFork,
+   idset |-> <<1, 1>>, trset |-> <<1>>, kind |-> <<"ok", "foreign">>, act |-> <<1, 2>>,
+   sched |-> <<{1, 2, 3}, {1, 2, 3}, {2, 3}>>] >>
 
 (* seeded universes: one option per block, then the static part, then one schedule per keyper *)
 BlockOpts == <<
@@ -236,6 +242,7 @@ Dlv(pk) ==
 Drop(pk) ==
     /\ pk \in Deliverable(net) /\ pk.m.t = "shares"
     /\ dropped[pk.d] < MaxLoss
+    /\ FoldSet(LAMBDA i, acc : acc + dropped[i], 0, Nodes) < MaxLossTotal      \* state-space bound only
     /\ Cardinality(Trigd(nd, pk.m.r)) = K
     /\ net' = NetRemove(net, pk)
     /\ dropped' = [dropped EXCEPT ![pk.d] = @ + 1]
